@@ -73,6 +73,7 @@ DECLS = {
     "s0": ("string", ""),
     "s1": ("string", "A"),
     "s5": ("string", "He lo"),
+    "sq": ("string", "'q'"),  # quote characters of the other kind at both edges of the content
     "z": ("zero", None),
 }
 
